@@ -170,6 +170,12 @@ UpdDev(m, e) ==
        [m EXCEPT !.faulty = TRUE, !.devErrPending = TRUE, !.replaying = FALSE, !.expect = <<>>, !.c04off = TRUE,
                  !.dev[d].dirty = (@ \/ op = "set"), !.movedEver = IF op = "set" THEN @ \cup {d} ELSE @,
                  !.dev[d].fly = IF op = "collect" THEN FALSE ELSE @]       \* (a collection that fails has been attempted)
+  ELSE IF e[4] = "nostatus" THEN
+       \* the device has been touched (moved / kicked off) but returned no status: the command fails with an AttributeError
+       LET m1 == [m EXCEPT !.faulty = TRUE, !.replaying = FALSE, !.expect = <<>>, !.c04off = TRUE] IN
+       CASE op = "set" -> [m1 EXCEPT !.dev[d].dirty = TRUE, !.movedEver = @ \cup {d}]
+         [] op = "kickoff" -> [m1 EXCEPT !.dev[d].fly = TRUE]
+         [] OTHER -> m1
   ELSE CASE op = "stage" -> [m EXCEPT !.dev[d].stg = @ + 1]
          [] op = "read" ->
               IF m.curRun \in RunKeys /\ m.bundle[m.curRun].open
